@@ -447,7 +447,7 @@ var specC02Poly = report.Spec{Property: "C02", Check: "C02Poly",
 	Assumptions: specC01.Assumptions}
 
 func genC02Poly(t *rapid.T) SnapCase {
-	if rapid.IntRange(0, report.Scale(150, 60)).Draw(t, "big") == 37 {
+	if rapid.IntRange(0, 150).Draw(t, "big") == 37 {
 		c := SnapCase{Grid: gen.RD, Q: 4, Shape: "big-smooth"}
 		g := c.Grid.MustBuild()
 		c.IDs = []int{rapid.IntRange(2, 14).Draw(t, "bigID")}
